@@ -86,8 +86,8 @@ def replay_states(ctx, fmt, sts, profiles, build, *, attrs_of, cap, sectors_api=
                 diskcheck.check_image(sub, fmt, img, view, b, r, full=prof.get("full", False), attrs=attrs_of(img, prof),
                                       cap=prof.get("cap", cap), sectors_api=sectors_api, max_len=prof.get("max_len", 8 << 20))
                 sub.extra["images_replayed"] = sub.extra.get("images_replayed", 0) + 1
-                if len(sub.violations) >= sub.max_violations:
-                    return
+                if len(sub.violations) >= sub.max_violations or sub.extra.get("hangs", 0) >= 2:
+                    return  # (a reader that hangs would cost a full watchdog period per image)
 
     core.parallel(ctx, work, sts)
 
